@@ -28,6 +28,25 @@ static int run(int argc, tok_t *a, out_t *o, f3_t f3, f4_t f4) {
   for (int i = 0; i < 4; i++) mpz_clear(v[i]);
   return 0;
 }
+/* alias_<fn> <w> <u> <cnt> <v0> <v1> <v2> <v3>: mpz_<fn> (var w, var u, cnt) */
+typedef void (*fb_t)(mpz_ptr, mpz_srcptr, mp_bitcnt_t);
+static int runb(int argc, tok_t *a, out_t *o, fb_t f) {
+  if (argc != 7) return -1;
+  for (int i = 0; i < 7; i++) if (a[i].kind != T_NUM) return -1;
+  long w = tok_long(&a[0]), u = tok_long(&a[1]);
+  unsigned long cnt = tok_ulong(&a[2]);
+  if (w < 0 || w > 3 || u < 0 || u > 3 || cnt > 100000) return -1;
+  mpz_t v[4]; mp_limb_t *p0[4];
+  for (int i = 0; i < 4; i++) { mpz_init(v[i]); tok_mpz(v[i], &a[3 + i]); p0[i] = v[i]->_mp_d; }
+  f(v[w], v[u], cnt);
+  for (int i = 0; i < 4; i++) {
+    out_mpz(o, v[i]); out_long(o, v[i]->_mp_alloc); out_long(o, v[i]->_mp_d != p0[i]);
+  }
+  for (int i = 0; i < 4; i++) mpz_clear(v[i]);
+  return 0;
+}
+#define OPB(fn) static int op_##fn(int argc, tok_t *a, out_t *o) { return runb(argc, a, o, mpz_##fn); }
+OPB(mul_2exp) OPB(tdiv_q_2exp)
 #define OP4(fn) static int op_##fn(int argc, tok_t *a, out_t *o) { return run(argc, a, o, 0, mpz_##fn); }
 #define OP3(fn) static int op_##fn(int argc, tok_t *a, out_t *o) { return run(argc, a, o, mpz_##fn, 0); }
 OP4(tdiv_qr) OP4(fdiv_qr) OP4(cdiv_qr)
@@ -37,6 +56,7 @@ const opdef_t ops_alias[] = {
   {"alias_tdiv_qr", op_tdiv_qr}, {"alias_fdiv_qr", op_fdiv_qr}, {"alias_cdiv_qr", op_cdiv_qr},
   {"alias_tdiv_q", op_tdiv_q}, {"alias_tdiv_r", op_tdiv_r}, {"alias_fdiv_q", op_fdiv_q}, {"alias_fdiv_r", op_fdiv_r},
   {"alias_cdiv_q", op_cdiv_q}, {"alias_cdiv_r", op_cdiv_r}, {"alias_mod", op_mod},
+  {"alias_mul_2exp", op_mul_2exp}, {"alias_tdiv_q_2exp", op_tdiv_q_2exp},
   {"alias_divexact", op_divexact},      /* the generator keeps to the documented domain: den != 0 and den | num */
   {0, 0}
 };
